@@ -319,7 +319,8 @@ def r4(ctx, cfg):
     # every Deps / DepsMut value in the crate is either built by with_storage[_readonly] over the callee's own window, or a
     # re-typing of an existing Deps / DepsMut whose storage is passed through untouched (`deps.storage`) - wherever that
     # re-typing is written (a helper such as decustomize_deps[_mut], or in place inside the lifting closures)
-    window = {"wasm::WasmKeeper::with_storage": "wasm::Wasm::contract_storage_mut", "wasm::WasmKeeper::with_storage_readonly": "wasm::Wasm::contract_storage"}
+    window = {"wasm::WasmKeeper::with_storage": "wasm::Wasm::contract_storage_mut", "wasm::WasmKeeper::query_smart": "wasm::Wasm::contract_storage"}
+    # (with_storage_readonly, query_smart's private wrapper, is always spliced into it: vlib/inline.py ALWAYS_INLINE)
     seen_window = set()
     n_sites = 0
     for f in F.user_fns():
@@ -350,10 +351,15 @@ def r4(ctx, cfg):
     for f, bid, t in q.all_calls(F, lambda c: c.get("trait") == "contracts::Contract" and c["name"] in CONTRACT_METHODS):
         n += 1
         root = f.key.split("::{closure")[0]
-        ok = root in allowed and f.kind == "closure"
-        if ok:
-            use = P.closure_use(f)
-            ok = use is not None and use[2]["callee"]["key"] in ("wasm::WasmKeeper::with_storage", "wasm::WasmKeeper::with_storage_readonly")
+        ok = root in allowed
+        if ok and t["callee"]["name"] == "query":
+            # the read-only entry point: runs on the Deps that query_smart builds over the queried contract's own window
+            dp = peel(P.call_args(f, t, bid)[1])
+            so = peel(dict(dp[2]).get("storage", ("?",))) if dp[0] == "agg" and dp[1].startswith("cosmwasm_std::Deps") else ("?",)
+            ok = root == "wasm::WasmKeeper::query_smart" and so[0] == "call" and so[1] == "wasm::Wasm::contract_storage" and is_param(so[2][2], "address")
+        elif ok:
+            use = P.closure_use(f) if f.kind == "closure" else None
+            ok = use is not None and use[2]["callee"]["key"] == "wasm::WasmKeeper::with_storage"
         ctx.ob(R, root, "Contract::%s-only-inside-with_storage" % t["callee"]["name"], ok,
                "Contract::%s is invoked from %s outside the with_storage wrappers" % (t["callee"]["name"], f.key), fn=f, line=t["line"],
                sample="inside closure passed to with_storage[_readonly]")
